@@ -84,15 +84,20 @@ StopTrue(X) == inst.stop.sensor # "none" /\
 (* ---- actions ---- *)
 Init == /\ inst \in Instances
         /\ time = <<>> /\ hist = <<>> /\ solvers = <<>> /\ run = [t |-> "none"] /\ epochs = <<>> /\ lastSid = 0
-        /\ attr = [pwm |-> "1", tq |-> SNull, pos |-> inst.pos0, spd |-> inst.spd0, acc |-> "0", lk |-> FALSE]
+        /\ attr = [pwm |-> "1", tq |-> SNull, pos |-> inst.pos0, spd |-> inst.spd0, acc |-> "0", lk |-> FALSE,
+                   prevLk |-> FALSE, inForce |-> "0", moved |-> FALSE]
 
 NewSolver == /\ run.t = "none" /\ Len(solvers) < MaxSolvers
              /\ solvers' = Append(solvers, FALSE)
              /\ UNCHANGED <<inst, time, hist, attr, run, epochs, lastSid>>
 
-Record(c) == /\ hist' = Append(hist, c.X)
+\* ghost fields of attr (history variables, used by invariants and by the refinement of LockAbs): lk = the lock bit under which
+\* the newest instant was computed, prevLk = the bit before that decision, inForce = the duty cycle the decision read,
+\* moved = did the position change from the previous instant
+Record(c, lkPrev, pwmF, w) ==
+             /\ hist' = Append(hist, c.X)
              /\ attr' = [pwm |-> c.X.pwm, tq |-> c.X.el[1].T, pos |-> c.X.el[NN].pos, spd |-> c.X.el[NN].spd, acc |-> c.X.el[NN].acc,
-                         lk |-> c.lk]        \* lk: ghost - the lock bit under which the newest instant was computed
+                         lk |-> c.lk, prevLk |-> lkPrev, inForce |-> pwmF, moved |-> (hist # <<>> /\ RSign(w) # 0)]
 
 \* Solver.run(dt, n*dt): fresh (time empty: instant 0 is computed now, from an UNLOCKED solver) or continuation
 RunBegin(s, n) ==
@@ -104,7 +109,7 @@ RunBegin(s, n) ==
      THEN LET c == ComputeInstant("0", attr.pos, attr.spd, attr.pwm, attr.tq, FALSE, 1, SNull) IN
           /\ time' = <<"0">>
           /\ IF c.conflict THEN /\ run' = [t |-> "error"] /\ UNCHANGED <<hist, attr>> /\ solvers' = [solvers EXCEPT ![s] = c.lk]
-             ELSE /\ Record(c) /\ solvers' = [solvers EXCEPT ![s] = c.lk]
+             ELSE /\ Record(c, FALSE, attr.pwm, attr.spd) /\ solvers' = [solvers EXCEPT ![s] = c.lk]
                   /\ run' = [t |-> "running", sid |-> s, left |-> n, first |-> 1]
      ELSE /\ run' = [t |-> "running", sid |-> s, left |-> n, first |-> Len(time) + 1]
           /\ UNCHANGED <<time, hist, attr, solvers>>
@@ -120,7 +125,7 @@ Step ==
      /\ time' = Append(time, t)
      /\ solvers' = [solvers EXCEPT ![run.sid] = c.lk]
      /\ IF c.conflict THEN run' = [t |-> "error"] /\ UNCHANGED <<hist, attr>>
-        ELSE /\ Record(c)
+        ELSE /\ Record(c, solvers[run.sid], attr.pwm, w)
              /\ IF StopTrue(c.X) \/ run.left = 1 THEN run' = [t |-> "none"]
                 ELSE run' = [run EXCEPT !.left = run.left - 1]
   /\ UNCHANGED <<inst, epochs, lastSid>>
@@ -131,7 +136,8 @@ Reset ==
   /\ run.t = "none" /\ time # <<>> /\ Len(epochs) + 1 < MaxEpochs
   /\ epochs' = Append(epochs, [hist |-> hist, time |-> time])
   /\ time' = <<>> /\ hist' = <<>>
-  /\ attr' = [pwm |-> hist[1].pwm, tq |-> hist[1].el[1].T, pos |-> inst.pos0, spd |-> inst.spd0, acc |-> hist[1].el[NN].acc, lk |-> FALSE]
+  /\ attr' = [pwm |-> hist[1].pwm, tq |-> hist[1].el[1].T, pos |-> inst.pos0, spd |-> inst.spd0, acc |-> hist[1].el[NN].acc, lk |-> FALSE,
+               prevLk |-> FALSE, inForce |-> "0", moved |-> FALSE]
   /\ lastSid' = 0
   /\ UNCHANGED <<inst, solvers, run>>
 
@@ -160,6 +166,20 @@ C14_Range == hist # <<>> => RLe("-1", Newest.pwm) /\ RLe(Newest.pwm, "1")
 C16_FirstHit == (run.t = "running" /\ Len(hist) > run.first) => \A j \in (run.first + (IF run.first = 1 THEN 1 ELSE 0))..(Len(hist) - 1) : ~StopTrue(hist[j])
 \* C17: one recorded instant per time instant whenever no call raised
 C17_Rect == run.t # "error" => Len(hist) = Len(time)
+
+\* C13: Solver refines the sign abstraction LockAbs (every step of this machine is a step - or a stuttering step - of the
+\* finite machine whose exhaustive exploration covers all real values); the mapping takes signs of the values the lock reads
+Sgn(x) == IF RSign(x) > 0 THEN "1" ELSE IF RSign(x) < 0 THEN "-1" ELSE "0"
+LA == INSTANCE LockAbs WITH
+        sl <- SLflag,
+        kind <- IF hist = <<>> THEN "start" ELSE "inst",
+        lk <- IF hist = <<>> THEN FALSE ELSE attr.lk,
+        pwm <- Sgn(attr.pwm),
+        tq <- IF attr.tq = SNull THEN SNull ELSE Sgn(attr.tq),
+        spd <- IF hist = <<>> THEN Sgn(attr.spd) ELSE Sgn(Newest.el[1].spd),
+        acc <- IF hist = <<>> THEN "0" ELSE Sgn(attr.acc),
+        moved <- attr.moved, prevLk <- attr.prevLk, inForce <- Sgn(attr.inForce)
+RefinesLockAbs == LA!ASpec
 
 \* C12: the recorded history does not depend on how the epoch was cut into runs, on which Solver object made the first
 \* run, or on whether it is the first epoch or a rerun after Reset: it is always a prefix of the reference trajectory -
